@@ -77,16 +77,18 @@ Proof. exact keyfile_spec. Qed.
 Print Assumptions C16_keyfile_spec.
 
 (* seed file: used only when acceptable; a present seed failing the checks contributes nothing and is
-   unlinked (a directory cannot be unlinked: it stays, unused); without --force an insecure seed
-   directory stops the daemon and the seed is neither read nor removed.  sr_hang: the start blocks in
-   open() — exactly when the seed is a FIFO and the source opens it without O_NONBLOCK (GenPath's
-   seed_open_nonblock, observed on every run) *)
-Theorem C16_seed_spec : forall (force : bool) (id : ident) (tg : N) (o : fobs) (chain : list dstat),
-  let r := seed_step force id tg o chain in
+   unlinked — provided the process may remove names from the seed's directory (cr; always, for uid 0) and the
+   seed is not a directory; when it cannot be removed it stays in place, unused (C16_seed_unremovable says
+   what happens to it at exit); without --force an insecure seed directory stops the daemon and the seed is
+   neither read nor removed.  sr_hang: the start blocks in open() — exactly when the seed is a FIFO and the
+   source opens it without O_NONBLOCK (GenPath's seed_open_nonblock, observed on every run) *)
+Theorem C16_seed_spec : forall (force : bool) (id : ident) (tg : N) (cr : bool) (o : fobs) (chain : list dstat),
+  let r := seed_step force id tg cr o chain in
   let euid := i_euid id in
   (sr_used r = true -> seed_acceptable euid o) /\
   (sr_refuse r = None -> sr_hang r = false -> seed_present o -> ~ seed_acceptable euid o ->
-     sr_used r = false /\ (~ seed_is_dir o -> sr_removed r = true)) /\
+     sr_used r = false /\ (~ seed_is_dir o -> cr = true -> sr_removed r = true) /\
+     (cr = false -> sr_removed r = false)) /\
   (sr_refuse r = None -> seed_acceptable euid o ->
      sr_hang r = false /\ sr_used r = true /\ sr_removed r = false) /\
   (force = false -> (sr_refuse r = None <-> Forall (dir_ok euid tg 0) chain)) /\
@@ -125,73 +127,126 @@ Proof. exact modes_for_all_umasks. Qed.
 Print Assumptions C16_modes_for_all_umasks.
 
 (* ... and WHATEVER is at the name beforehand (e ranges over: nothing; a file of any type, owner and mode;
-   a symlink to any such file; a dangling symlink), any identity, any umask:
-   the pid is written to a brand-new regular file (not reached through a symlink) owned by the effective
-   uid and gid with no permission outside 0644; only a directory in the way leaves no pid file, and then
-   nothing is touched.  The write never blocks. *)
-Theorem C16_pid_any_prior : forall (fg : bool) (id : ident) (u : N) (e : fobs), u < 512 ->
-  let r := pid_write fg id u e in
-  w_hang r = false /\
+   a symlink to any such file; a dangling symlink), WHATEVER the process may do in the directory that holds it
+   (p: may it remove names there, may it create names there — a daemon that is not root may lack either), any
+   identity, any umask.  unlink_fails p e: the unlink before the create fails with an errno other than ENOENT,
+   i.e. a directory is in the way or the process may not remove what is there.
+   The pid: the file it is written to is what stat reports at the name afterwards; when the old name could be
+   removed it is a brand-new regular file (not reached through a symlink) of the effective uid and gid within
+   0644; when it could not, open() REUSES the old file, and the source sets its mode (GenPath *_pid_rechmod:
+   0644 less the umask) — so within 0644 whenever the file is the daemon's own or the daemon is root; the one
+   case left: a file of ANOTHER owner that the daemon may write but neither remove nor chmod keeps its mode.
+   The write blocks only on something that could not be removed. *)
+Theorem C16_pid_any_prior : forall (fg : bool) (id : ident) (u : N) (p : dperm) (e : fobs), u < 512 ->
+  let r := pid_write fg id u p e in
+  (w_hang r = true -> unlink_fails p e = true) /\
   match w_file r with
-  | Some s => w_entry r = mko false (Some s) /\ f_type s = TReg /\ f_uid s = i_euid id /\
-              f_gid s = i_egid id /\ within (f_mode s) 420 = true
-  | None => entry_is_dir e /\ w_entry r = e
+  | Some s =>
+      o_stat (w_entry r) = Some s /\
+      (may_chmod id s = true -> within (f_mode s) 420 = true) /\
+      (unlink_fails p e = false ->
+         w_entry r = mko false (Some s) /\ f_type s = TReg /\ f_uid s = i_euid id /\ f_gid s = i_egid id /\
+         within (f_mode s) 420 = true) /\
+      (may_chmod id s = false -> unlink_fails p e = true /\ o_stat e = Some s)
+  | None => True
   end.
 Proof. exact pid_any_prior. Qed.
 Print Assumptions C16_pid_any_prior.
 
-(* the same for the seed written at exit, within 0600 *)
-Theorem C16_seed_written_any_prior : forall (fg : bool) (id : ident) (u : N) (e : fobs), u < 512 ->
-  let r := seed_write fg id u e in
-  w_hang r = false /\
+(* the seed written at exit: never more permissive than 0600 and never a file the daemon does not own — a seed
+   that could not be removed is overwritten only after its mode has been set to 0600 (GenPath *_seed_rechmod),
+   and if that fails nothing is written *)
+Theorem C16_seed_written_any_prior : forall (fg : bool) (id : ident) (u : N) (p : dperm) (e : fobs), u < 512 ->
+  let r := seed_write fg id u p e in
+  (w_hang r = true -> unlink_fails p e = true) /\
   match w_file r with
-  | Some s => w_entry r = mko false (Some s) /\ f_type s = TReg /\ f_uid s = i_euid id /\
-              f_gid s = i_egid id /\ within (f_mode s) 384 = true
-  | None => entry_is_dir e /\ w_entry r = e
+  | Some s =>
+      o_stat (w_entry r) = Some s /\ within (f_mode s) 384 = true /\ may_chmod id s = true /\
+      (unlink_fails p e = false ->
+         w_entry r = mko false (Some s) /\ f_type s = TReg /\ f_uid s = i_euid id /\ f_gid s = i_egid id /\
+         within (f_mode s) 384 = true) /\
+      (unlink_fails p e = true ->
+         o_symlink (w_entry r) = o_symlink e /\
+         f_uid s = match o_stat e with Some s0 => f_uid s0 | None => i_euid id end)
+  | None => True
   end.
 Proof. exact seed_write_any_prior. Qed.
 Print Assumptions C16_seed_written_any_prior.
 
-(* the socket is a brand-new socket of the effective uid with mode exactly 0777, or the daemon dies
-   (only when a directory is in the way) *)
-Theorem C16_socket_any_prior : forall (fg : bool) (id : ident) (u : N) (e : fobs), u < 512 ->
-  match sock_bind fg id u e with
+(* when the process may remove names in the directory (uid 0 always may: perm_root) the old, stronger statement
+   holds: whatever was there, the file written is brand-new *)
+Theorem C16_pid_seed_removable : forall (fg : bool) (id : ident) (u : N) (p : dperm) (e : fobs), u < 512 ->
+  p_remove p = true ->
+  match w_file (pid_write fg id u p e) with
+  | Some s => w_entry (pid_write fg id u p e) = mko false (Some s) /\ f_type s = TReg /\ f_uid s = i_euid id /\
+              f_gid s = i_egid id /\ within (f_mode s) 420 = true
+  | None => True
+  end /\
+  match w_file (seed_write fg id u p e) with
+  | Some s => w_entry (seed_write fg id u p e) = mko false (Some s) /\ f_type s = TReg /\ f_uid s = i_euid id /\
+              f_gid s = i_egid id /\ within (f_mode s) 384 = true
+  | None => True
+  end.
+Proof. intros fg id u p e U R. split; [exact (pid_removable fg id u p e U R)|exact (seed_removable fg id u p e U R)]. Qed.
+Print Assumptions C16_pid_seed_removable.
+
+(* the source as it was before the repair (a reused file keeps its mode: rechmod = None) is REFUTED: a daemon
+   that is not root (uid 4242), its own stale 0644 seed / 0666 pid file in a directory it may not write to —
+   the new seed is written to a 0644 file, the pid to a 0666 file *)
+Theorem C16_seed_reuse_old_refuted :
+  exists fg id u p e s, u < 512 /\ w_file (seed_write_with None fg id u p e) = Some s /\
+                        f_uid s = i_euid id /\ within (f_mode s) 384 = false.
+Proof. exact seed_reuse_old_refuted. Qed.
+Print Assumptions C16_seed_reuse_old_refuted.
+
+Theorem C16_pid_reuse_old_refuted :
+  exists fg id u p e s, u < 512 /\ w_file (pid_write_with None fg id u p e) = Some s /\
+                        f_uid s = i_euid id /\ within (f_mode s) 420 = false.
+Proof. exact pid_reuse_old_refuted. Qed.
+Print Assumptions C16_pid_reuse_old_refuted.
+
+(* the socket is a brand-new socket of the effective uid with mode exactly 0777, or the daemon dies (a directory
+   in the way, an old name it may not remove, a directory it may not create names in) *)
+Theorem C16_socket_any_prior : forall (fg : bool) (id : ident) (u : N) (p : dperm) (e : fobs), u < 512 ->
+  match sock_bind fg id u p e with
   | Some e' => e' = mko false (Some (mkf TSock (i_euid id) (i_egid id) 511))
-  | None => entry_is_dir e
+  | None => unlink_fails p e = true \/ p_create p = false
   end.
 Proof. exact sock_any_prior. Qed.
 Print Assumptions C16_socket_any_prior.
 
 (* the lock: whenever the daemon carries on holding a lock, the locked file (what stat reports at the name)
    is a regular file of mode exactly 0200 owned by the effective uid; it carries on without one only
-   under --force; under --force the lock file is brand-new; on a clean slate it is created 0200 *)
-Theorem C16_lock_any_prior : forall (fg force : bool) (id : ident) (u : N) (e : fobs),
-  match lock_step fg force id u e with
+   under --force; under --force (old name removable) the lock file is brand-new; on a clean slate it is
+   created 0200 *)
+Theorem C16_lock_any_prior : forall (fg force : bool) (id : ident) (u : N) (p : dperm) (e : fobs),
+  match lock_step fg force id u p e with
   | LLocked e' s => o_stat e' = Some s /\ f_type s = TReg /\ f_mode s = 128 /\ f_uid s = i_euid id /\
-                    (force = true -> e' = mko false (Some s) /\ f_gid s = i_egid id)
+                    (force = true -> unlink_fails p e = false -> e' = mko false (Some s) /\ f_gid s = i_egid id)
   | LNoLock _ => force = true
   | LRefuse _ | LHang => True
   end.
 Proof. exact lock_any_prior. Qed.
 Print Assumptions C16_lock_any_prior.
 
-Theorem C16_lock_fresh : forall (fg force : bool) (id : ident) (u : N), u < 512 ->
-  lock_step fg force id u (mko false None) =
+Theorem C16_lock_fresh : forall (fg force : bool) (id : ident) (u : N) (p : dperm), u < 512 -> p_create p = true ->
+  lock_step fg force id u p (mko false None) =
   LLocked (mko false (Some (mkf TReg (i_euid id) (i_egid id) 128))) (mkf TReg (i_euid id) (i_egid id) 128).
 Proof. exact lock_fresh. Qed.
 Print Assumptions C16_lock_fresh.
 
 (* the log (daemon mode, no --force): the file opened is regular, reached without a symlink, owned by the
    effective uid and not group-/world-writable; when nothing was there it is new and within 0640; the open
-   can only fail on a file the process may not write, and never blocks *)
-Theorem C16_log_any_prior : forall (id : ident) (tg u : N) (o : fobs) (chain : list dstat), u < 512 ->
+   can only fail on a file the process may not write or in a directory it may not create the file in, and
+   never blocks *)
+Theorem C16_log_any_prior : forall (id : ident) (tg u : N) (p : dperm) (o : fobs) (chain : list dstat), u < 512 ->
   logfile_check false id tg o chain = None ->
-  match log_open id u o with
+  match log_open id u p o with
   | OOpened e' s => o_symlink e' = false /\ o_stat e' = Some s /\ f_type s = TReg /\ f_uid s = i_euid id /\
                     N.testbit (f_mode s) 4 = false /\ N.testbit (f_mode s) 1 = false /\
                     (o_stat o = None -> f_gid s = i_egid id /\ within (f_mode s) 416 = true)
-  | OFail => exists s, o_stat o = Some s /\ may_write id s = false
-  | OBlock => False
+  | OFail => (exists s, o_stat o = Some s /\ may_write id s = false) \/ (o_stat o = None /\ p_create p = false)
+  | OBlock | OAbandon _ => False
   end.
 Proof. exact log_any_prior. Qed.
 Print Assumptions C16_log_any_prior.
@@ -213,7 +268,8 @@ Theorem C16_startup_refuses : forall c : config, c_force c = false -> startup c 
 Proof. exact startup_refuses. Qed.
 Print Assumptions C16_startup_refuses.
 
-(* a successful start (forced or not) with ANY prior state of the socket, lock, pid, log and seed names:
+(* a successful start (forced or not) with ANY prior state of the socket, lock, pid, log and seed names and
+   any ownership/mode of the directories that hold them (perm_at: what the process may do there):
    what the five names hold afterwards *)
 Theorem C16_started_files : forall c : config, c_umask c < 512 -> startup c = None ->
   let id := c_id c in let a := after_start c in
@@ -224,14 +280,20 @@ Theorem C16_started_files : forall c : config, c_umask c < 512 -> startup c = No
   | _ => False
   end /\
   match w_file (pid_of c) with
-  | Some s => a_pid a = mko false (Some s) /\ f_type s = TReg /\ f_uid s = i_euid id /\
-              f_gid s = i_egid id /\ within (f_mode s) 420 = true
-  | None => entry_is_dir (c_pid c) /\ a_pid a = c_pid c
+  | Some s => o_stat (a_pid a) = Some s /\
+              (may_chmod id s = true -> within (f_mode s) 420 = true) /\
+              (unlink_fails (perm_at id (c_piddir c) (c_pid c)) (c_pid c) = false ->
+                 a_pid a = mko false (Some s) /\ f_type s = TReg /\ f_uid s = i_euid id /\
+                 f_gid s = i_egid id /\ within (f_mode s) 420 = true) /\
+              (may_chmod id s = false -> o_stat (c_pid c) = Some s)
+  | None => True
   end /\
   match w_file (seed_written c) with
-  | Some s => seed_after c = mko false (Some s) /\ f_type s = TReg /\ f_uid s = i_euid id /\
-              f_gid s = i_egid id /\ within (f_mode s) 384 = true
-  | None => sr_keep (seed_of c) = true -> entry_is_dir (seed_at_exit c) /\ seed_after c = seed_at_exit c
+  | Some s => o_stat (seed_after c) = Some s /\ within (f_mode s) 384 = true /\ may_chmod id s = true /\
+              (unlink_fails (perm_at id (c_seeddir c) (seed_at_exit c)) (seed_at_exit c) = false ->
+                 seed_after c = mko false (Some s) /\ f_type s = TReg /\ f_uid s = i_euid id /\
+                 f_gid s = i_egid id /\ within (f_mode s) 384 = true)
+  | None => True
   end /\
   (c_fg c = false -> c_force c = false ->
    exists e' s, a_log a = Some e' /\ o_symlink e' = false /\ o_stat e' = Some s /\ f_type s = TReg /\
@@ -239,6 +301,29 @@ Theorem C16_started_files : forall c : config, c_umask c < 512 -> startup c = No
                 (o_stat (c_log c) = None -> within (f_mode s) 416 = true)).
 Proof. exact started_files. Qed.
 Print Assumptions C16_started_files.
+
+(* "an existing seed file that fails the ownership/permission checks is ignored and removed, not used" when
+   removal is IMPOSSIBLE (the daemon may not write to the seed's directory): ignored, not used, left in place
+   at start-up; at exit it is overwritten only after its mode has been set within 0600 (exactly 0600: reuse_now)
+   — by its owner or root, its owner unchanged — or not written to at all *)
+Theorem C16_seed_unremovable : forall c : config, c_umask c < 512 -> startup c = None ->
+  seed_present (c_seed c) -> ~ seed_acceptable (i_euid (c_id c)) (c_seed c) ->
+  p_remove (perm_at (c_id c) (c_seeddir c) (c_seed c)) = false ->
+  sr_used (seed_of c) = false /\ sr_removed (seed_of c) = false /\ seed_at_exit c = c_seed c /\
+  match w_file (seed_written c) with
+  | Some s => o_stat (seed_after c) = Some s /\ within (f_mode s) 384 = true /\ may_chmod (c_id c) s = true /\
+              f_uid s = match o_stat (c_seed c) with Some s0 => f_uid s0 | None => i_euid (c_id c) end
+  | None => True
+  end.
+Proof. exact seed_unremovable. Qed.
+Print Assumptions C16_seed_unremovable.
+
+(* the two witness states under the source as it is now: seed 0644 -> 0600, pid 0666 -> 0644 *)
+Theorem C16_reuse_now :
+  w_file (seed_write true daemon_id 18 no_write_perm (mko false (Some (mkf TReg 4242 4242 420)))) = Some (mkf TReg 4242 4242 384) /\
+  w_file (pid_write true daemon_id 18 no_write_perm (mko false (Some (mkf TReg 4242 4242 438)))) = Some (mkf TReg 4242 4242 420).
+Proof. exact reuse_now. Qed.
+Print Assumptions C16_reuse_now.
 
 (* only the effective uid (and, for the group of new files, the effective gid) matters: two processes that
    differ in real and saved ids only are treated alike at every step *)
@@ -265,19 +350,21 @@ Print Assumptions C16_lock_fifo_blocks.
 
 (* non-vacuity: a configuration that starts (real uid 0, effective uid 1000; trusted group 7 owns a
    group-writable ancestor of the key; a stale world-writable pid file of somebody else, a symlink at the
-   socket name), the same configuration without the trusted group is refused at the key's second directory,
-   and the same with real and effective uid swapped is refused for the key's owner *)
+   socket name, all in directories of the daemon user), the same configuration without the trusted group is refused at the key's second directory,
+   and the same with real and effective uid swapped is refused at once: the seed's directory belongs to the
+   real, not the effective user *)
 Example C16_starts_example :
   let gwdir := mkd 0 7 509 in   (* 0775, gid 7 *)
+  let own_dir := mkd 1000 0 493 in   (* the daemon user's own 0755 directory *)
   let c id tg := mkc true false id tg 63
       (mko false (Some (mkf TReg 1000 1000 256))) [mkd 1000 1000 448; gwdir; clean_dir]
-      (mko false (Some (mkf TReg 1000 1000 420))) [clean_dir]
-      (mko false None) [clean_dir]
-      (mko true None) [clean_dir] (mko false None)
-      (mko false (Some (mkf TReg 5151 0 438))) [clean_dir] in
+      (mko false (Some (mkf TReg 1000 1000 420))) [own_dir; clean_dir]
+      (mko false None) [own_dir; clean_dir]
+      (mko true None) [own_dir; clean_dir] (mko false None)
+      (mko false (Some (mkf TReg 5151 0 438))) [own_dir; clean_dir] in
   let id := mkid 0 1000 0 0 1000 0 in
   startup (c id 7) = None /\ startup (c id no_trusted) = Some (SKey, WDir 1 RGroupW) /\
-  startup (c (mkid 1000 0 0 0 0 0) 7) = Some (SKey, WOwner) /\
+  startup (c (mkid 1000 0 0 0 0 0) 7) = Some (SSeed, WDir 0 ROwner) /\
   sr_used (seed_of (c id 7)) = false /\ sr_removed (seed_of (c id 7)) = true /\
   a_pid (after_start (c id 7)) = mko false (Some (mkf TReg 1000 1000 384)) /\
   a_sock (after_start (c id 7)) = mko false (Some (mkf TSock 1000 1000 511)).
